@@ -9,7 +9,8 @@ def run(check):
                   "extreme integers, empty / non-ASCII / invalid UTF-8 strings, nested and empty lists, every format letter and precisions -1..5000) plus random values; "
                   "checks: no panic, two calls agree, result accepted by Output(parameter types), and the laws (floatToInt truncates toward zero, is monotonic and "
                   "saturates; string<->int/float/bool round trips; splitString against an independent splitter; case functions idempotent and rune-wise; bindConstants "
-                  "length/order/pairing); the same calls repeated through the expression library (Type vs Evaluate vs Call); distinct = (function, argument class)")
+                  "length/order/pairing); the same calls repeated through the expression library (Type vs Evaluate vs Call); 8 goroutines evaluating one argument table "
+                  "of each function at the same time must get the sequential results; distinct = (function, argument class)")
     check.assumptions = ["readFile / getEnvVar are only checked for totality and determinism within one process"]
     cases = []
     nshards = check.pick(4, 16)
@@ -36,6 +37,7 @@ def run(check):
         check.extra["functions"] = ex.get("functions")
         check.extra["expression_evaluations"] = check.extra.get("expression_evaluations", 0) + ex.get("expression_evaluations", 0)
         check.extra["errors_returned"] = check.extra.get("errors_returned", 0) + ex.get("errors_returned", 0)
+        check.extra["concurrent_calls"] = check.extra.get("concurrent_calls", 0) + ex.get("concurrent_calls", 0)
         for k, n in (ex.get("per_function") or {}).items():
             check.extra.setdefault("calls_per_function", {})[k] = check.extra.get("calls_per_function", {}).get(k, 0) + n
     for i in range(classes):
